@@ -45,7 +45,7 @@ SumSeq(m) == Cardinality({i \in DOMAIN m : m[i] = 1})
 \* ---- type-check predicates on argument tokens <<kind, value>>
 \* <<"big", k, off>> stands for the Python integer 2^k + off (Python's integers are unbounded; TLC's are not):
 \* for k >= 2 it is a power of two iff off = 0
-Tokens == {<<"int", v>> : v \in -2..4} \cup {<<"bool", 0>>, <<"bool", 1>>, <<"float", 2>>, <<"str", 3>>, <<"none", 0>>}
+Tokens == {<<"int", v>> : v \in -2..4} \cup {<<"bool", 0>>, <<"bool", 1>>, <<"float", 2>>, <<"float", 0>>, <<"float", 1>>, <<"str", 3>>, <<"none", 0>>}
           \cup {<<"big", k, off>> : k \in {5, 10, 24, 31, 32, 49, 53, 63, 64, 100, 1000}, off \in {-1, 0, 1, 3}}
 IsBool(t) == t[1] = "bool"
 IsInt(t) == t[1] \in {"int", "bool", "big"}      \* Python: bool is a subclass of int
